@@ -143,9 +143,9 @@ class Config:
 		self.output_language = config['output_language']
 		self.di = config.get('di', {})
 		self.env = config.get('env', {})
-		self.force = config.get('force', args.force)
-		self.profile = config.get('profile', args.profile)
-		self.verbose = config.get('verbose', args.verbose)
+		self.force = args.force or config.get('force', False)
+		self.profile = args.profile or config.get('profile', False)
+		self.verbose = args.verbose or config.get('verbose', False)
 		self.mode = Config.Modes.Help if args.help else (Config.Modes.Interactive if args.interactive else Config.Modes.Run)
 
 	def __load_config(self, filepath: str) -> ConfigDict:
